@@ -37,3 +37,41 @@ Theorem c06_invalid_templates_skipped : forall valid d http r,
   In r (routes_for valid d http) -> valid (r_pattern r) = true.
 Proof. exact routes_valid. Qed.
 Print Assumptions c06_invalid_templates_skipped.
+
+(* ---- the SERVICE table (routing.ServiceRouter: updateRoutes / removeTarget / handOver), for every history ---- *)
+From GB Require Import Proofs.SvcTableProofs.
+
+(* a routed service points at a LIVE target, at that target's LATEST description, at a position where that description
+   lists exactly this service *)
+Theorem c06_service_sound : forall valid ops svc r, probe_grpc (run_ops valid ops) svc = Some r ->
+  exists d s, lget (sr_target r) (snd (run_spec ops)) = Some d /\ sr_desc r = d_id d /\
+              nth_error (d_services d) (sr_idx r) = Some s /\ s_name s = svc.
+Proof. exact service_sound. Qed.
+Print Assumptions c06_service_sound.
+
+(* every service listed by the latest description of some live target is routed (to a live lister, by soundness) -
+   also after its previous owner closed or dropped it *)
+Theorem c06_service_complete : forall valid ops m dm svc,
+  lget m (snd (run_spec ops)) = Some dm -> lists_svc dm svc = true -> probe_grpc (run_ops valid ops) svc <> None.
+Proof. exact service_complete. Qed.
+Print Assumptions c06_service_complete.
+
+(* a service listed by exactly one live target is routed to it, with its latest description *)
+Theorem c06_service_sole : forall valid ops n d svc,
+  lget n (snd (run_spec ops)) = Some d -> lists_svc d svc = true ->
+  (forall n' d', n' <> n -> lget n' (snd (run_spec ops)) = Some d' -> lists_svc d' svc = false) ->
+  exists r s, probe_grpc (run_ops valid ops) svc = Some r /\ sr_target r = n /\ sr_desc r = d_id d /\
+              nth_error (d_services d) (sr_idx r) = Some s /\ s_name s = svc.
+Proof. exact service_sole. Qed.
+Print Assumptions c06_service_sole.
+
+(* a service that no live target's latest description lists is not routed: removed targets and dropped services leave nothing behind *)
+Theorem c06_service_none : forall valid ops svc,
+  (forall n d, lget n (snd (run_spec ops)) = Some d -> lists_svc d svc = false) -> probe_grpc (run_ops valid ops) svc = None.
+Proof. exact service_none. Qed.
+Print Assumptions c06_service_none.
+
+(* the full representation invariant: table sound and complete, claim lists = ownership relation, recorded listings = latest descriptions *)
+Theorem c06_service_invariant : forall valid ops, SInv (snd (run_spec ops)) (st_st (run_ops valid ops)).
+Proof. exact service_inv. Qed.
+Print Assumptions c06_service_invariant.
